@@ -62,7 +62,7 @@ pub fn wellformed(lang_code: &str, texts: &[&str], nan: &[bool], occ: &[Occ], ob
 /// ordinal / separator / digit / zero shapes spliced from speller phrases (the places where ill-formed or
 /// inconsistent occurrences can come from); shared with C07
 pub fn shaped_texts() -> BoxedStrategy<(String, String, u64)> {
-(lang_strategy(), num_strategy(1_000_000), choices(), num_strategy(1000), 0u8..11, threshold_strategy()).prop_map(|(lang, n, ch, m, shape, th)| {
+(lang_strategy(), num_strategy(1_000_000), choices(), num_strategy(1000), 0u8..13, threshold_strategy()).prop_map(|(lang, n, ch, m, shape, th)| {
             let mut c = crate::choose::Bytes::new(&ch);
             let r = 1 + n % crate::spell::ordinal_max(&lang);
             let ord = crate::spell::ordinal(&lang, r, &mut c).map(|x| x.0).unwrap_or_else(|| crate::spell::cardinal(&lang, r, &mut c));
@@ -76,6 +76,12 @@ pub fn shaped_texts() -> BoxedStrategy<(String, String, u64)> {
                 3 => [ord, vec![conj], card].concat(),
                 4 => [card.clone(), vec![sep.clone()], card, vec![sep], ord].concat(),
                 6 => [ord.clone(), vec![sep], ord].concat(),
+                11 | 12 if lang == "es" || lang == "pt" => {
+                    // ordinals beyond 2^53 built from the ordinal scale words (every component ordinal, one inflection)
+                    let sc: Vec<String> = if lang == "es" { vec!["milésimo".into(), "millonésimo".into()] } else { vec!["milionésimo".into(), "bilionésimo".into()] };
+                    let o = |k: u64| crate::spell::ordinal(&lang, 1 + k % 99, &mut crate::choose::Bytes::new(&[0])).map(|x| x.0).unwrap_or_default();
+                    if shape == 11 { [o(m), sc, o(n)].concat() } else { [o(m), vec![sc[1].clone()], o(n)].concat() }
+                }
                 9 | 10 => {
                     // a fraction that starts with zero words and ends in an ordinal / a cardinal
                     let z = crate::spell::zero_word(&lang).to_string();
